@@ -431,6 +431,15 @@ fn gen_lu(rng: &mut Rng, class: &'static str, n: usize, alt: bool) -> LuInput {
             (a, "strictly row diagonally dominant (no row exchange needed)".into())
         }
     };
+    // the absolute scale of the input is arbitrary: non-integer classes are sometimes multiplied by a
+    // power of two (exact; L is unchanged and U scales), far below and above 1
+    let (mut a, mut how) = (a, how);
+    if !integer && exact_det.is_none() && rng.chance(0.25) {
+        let k = rng.int(40, 200) as i32 * if rng.bool() { 1 } else { -1 };
+        let f = 2f64.powi(k);
+        a.iter_mut().for_each(|v| *v *= f);
+        how = format!("{} x 2^{}", how, k);
+    }
     LuInput { regime, how, n, a, integer, exact_det }
 }
 
@@ -469,8 +478,70 @@ fn check_chol_factor(rep: &mut Report, regime: &str, how: &str, form: &str, a: &
     ok && lower && posdiag
 }
 
+/// SPD with exact zeros where fill-in occurs (arrowhead / grid-Laplacian pattern / band with holes),
+/// strictly diagonally dominant with positive diagonal.
+fn gen_spd_sparse(rng: &mut Rng, n: usize) -> (Vec<f64>, String) {
+    let mut a = vec![0.0; n * n];
+    let how;
+    match rng.usize(0, 2) {
+        0 => {
+            let hub = if rng.bool() { 0 } else { n - 1 };
+            for i in 0..n {
+                if i != hub {
+                    let v = rng.range(-1.0, 1.0);
+                    a[i * n + hub] = v;
+                    a[hub * n + i] = v;
+                }
+            }
+            how = format!("arrowhead (hub {})", hub);
+        }
+        1 => {
+            let w = ((n as f64).sqrt().ceil() as usize).max(1);
+            for i in 0..n {
+                for &j in &[i + 1, i + w] {
+                    if j < n && !(j == i + 1 && j % w == 0) {
+                        let v = -rng.range(0.5, 1.0);
+                        a[i * n + j] = v;
+                        a[j * n + i] = v;
+                    }
+                }
+            }
+            how = format!("grid-Laplacian pattern, width {}", w);
+        }
+        _ => {
+            let bw = rng.usize(1, n.max(2) - 1).min(6);
+            for i in 0..n {
+                for j in i + 1..(i + 1 + bw).min(n) {
+                    if rng.chance(0.6) {
+                        let v = rng.range(-1.0, 1.0);
+                        a[i * n + j] = v;
+                        a[j * n + i] = v;
+                    }
+                }
+            }
+            how = format!("band {} with random holes", bw);
+        }
+    }
+    for i in 0..n {
+        let off: f64 = (0..n).filter(|&j| j != i).map(|j| a[i * n + j].abs()).sum();
+        a[i * n + i] = off + rng.range(0.1, 1.0);
+    }
+    (a, format!("sparse SPD with exact zeros: {}", how))
+}
+
 fn chol_case(rep: &mut Report, rng: &mut Rng, n: usize) {
-    let (a, how) = gen_spd(rng, n);
+    let (mut a, mut how) = if rng.chance(0.3) { gen_spd_sparse(rng, n) } else { gen_spd(rng, n) };
+    if how.starts_with("sparse") {
+        rep.seen("chol-spd:sparse-with-fill-in", 1);
+    }
+    // the absolute scale of the input is arbitrary: sometimes multiply by a power of two (exact)
+    if rng.chance(0.25) {
+        let k = rng.int(40, 200) as i32 * if rng.bool() { 1 } else { -1 };
+        let f = 2f64.powi(k);
+        a.iter_mut().for_each(|v| *v *= f);
+        how = format!("{} x 2^{}", how, k);
+        rep.seen("chol-spd:scaled-2^k", 1);
+    }
     chol_check(rep, rng, n, a, how);
 }
 
@@ -655,6 +726,11 @@ fn lu_case(rep: &mut Report, rng: &mut Rng, inp: &LuInput) {
     };
     let (hsign, longest) = perm_sign_cycles(&perm);
     let prod = (0..n).fold(1.0f64, |acc, i| acc * lum.data[i * n + i]);
+    // a determinant outside the normal f64 range (scaled inputs) says nothing about the property
+    if !prod.is_finite() || (prod != 0.0 && prod.abs() < 1e-290) {
+        rep.seen("det:outside-f64-range(skipped)", 1);
+        return;
+    }
     let sign_regime = if longest >= 3 { "det:pivot-cycle>=3" } else { "det:pivot-involution" };
     rep.seen(sign_regime, 1);
     let dets = [("Matrix::det", guard(|| m.det())), ("Matrix::lu_det", guard(|| lum.lu_det(&pivm)))];
